@@ -185,6 +185,14 @@ def check_dcm(case, ctx):
                 ctx.le("constructed DCM is a proper rotation", rq.so3_defect(M), 1e-12, {"M": M}, route=r)
                 ctx.ok("object is a DCM", isinstance(out.value, DCM), route=r)
     ctx.le("reference: DCM(q=) equals R(q)", 0.0, 1.0, route="DCM(q=)")
+    # a default-constructed DCM used as a container and filled in place must not change what the next default construction (or any validation) sees
+    def container_():
+        D0 = DCM()
+        D0[:, 0], D0[:, 1], D0[:, 2] = p["R"][:, 0], p["R"][:, 1], p["R"][:, 2]
+        return np.array(DCM(), float), np.array(DCM(p["R"].copy()), float)
+    oc = call(container_)
+    if ctx.returned(oc, clause="no-exception[after a default DCM() was filled in place]", route="DCM(R)"):
+        ctx.le("DCM() is the identity whatever was done to an earlier default-constructed object", float(np.abs(oc.value[0] - np.identity(3)).max()), 0.0, route="DCM(R)")
     # ---- a non-finite angle on the angle routes is not a rotation either: rejected, not wrapped
     bad = [float("nan"), float("inf"), -float("inf")][int(abs(xyz[2]) * 1e6) % 3]
     kb = int(abs(xyz[1]) * 1e6) % 3
@@ -203,6 +211,20 @@ def check_dcm(case, ctx):
     null = [0.0, 2 * np.pi, -4 * np.pi, 0.0][int(abs(xyz[0]) * 1e6) % 4]
     angs0 = list(angs)
     angs0[int(abs(xyz[1]) * 1e6) % len(angs0)] = null
+    # one angle tiny but not zero (1e-12 .. 1e-7 rad), or within that of a right angle: matrix entries of that size are what keeps the columns orthogonal
+    tiny = 10.0 ** (-12.0 + 5.0 * ((abs(xyz[0]) * 1e3) % 1.0)) * (1.0 if xyz[1] > 0 else -1.0)
+    angs_t = list(angs)
+    angs_t[int(abs(xyz[2]) * 1e6) % len(angs_t)] = tiny if int(abs(xyz[0]) * 1e6) % 2 else np.pi / 2 + tiny
+    xyz_t = list(xyz)
+    xyz_t[int(abs(xyz[2]) * 1e6) % 3] = tiny
+    for r, fn in (("rot_seq()[a tiny angle]", lambda: rot_seq(seq, list(angs_t))), ("DCM(euler=)[a tiny angle]", lambda: DCM(euler=(seq, list(angs_t)))),
+                  ("DCM(rpy=)[a tiny angle]", lambda: DCM(rpy=list(xyz_t))), ("DCM(x,y,z)[a tiny angle]", lambda: DCM(x=xyz_t[0], y=xyz_t[1], z=xyz_t[2])),
+                  ("rot_seq()[three axes, a tiny angle]", lambda: rot_seq("zyx", [xyz[2], tiny, xyz[0]])), ("DCM(axang=)[a tiny angle]", lambda: DCM(axang=(p["axis"].copy(), tiny)))):
+        out = call(fn)
+        if ctx.returned(out, route=r):
+            Mt = as_real_array(ctx, np.asarray(out.value), (3, 3), route=r, what="matrix")
+            if Mt is not None:
+                ctx.le("constructed DCM is a proper rotation", rq.so3_defect(Mt), 1e-12, {"M": Mt, "tiny_angle": tiny}, route=r)
     free = {
         "rotation()": lambda: rotation(seq[0], angs[0]),
         "rotation()[null angle]": lambda: rotation(seq[0], null),
